@@ -41,6 +41,18 @@ def known_e2e(report, fid, still_fails, witness, what):
         report.violations.append({'what': what, 'replay': path, 'no_input': False})
 
 
+def guarded_parse(p, formula, seconds=20):
+    """ Parser.parse under a wall-clock alarm: an evaluation that does not come back is an outcome (reported), never a hanging check """
+    from pyvc import e2e
+    import threading
+    if threading.current_thread() is not threading.main_thread():
+        return p.parse(formula)
+    try:
+        return e2e.run_with_deadline(lambda: p.parse(formula), seconds)
+    except e2e.Budget:
+        return {'result': None, 'error': 'DOES-NOT-RETURN within %d s' % seconds}
+
+
 def formula_table(report, name, bound, rows, variables=None, functions=None):
     """ a table of formulas with the outcome the property demands (a value with its type, an error code, or a predicate over the record),
         each on a fresh parser through the real Parser.parse; labelled bounded """
@@ -53,7 +65,7 @@ def formula_table(report, name, bound, rows, variables=None, functions=None):
             p.set_variable(k, v)
         for k, v in (functions or {}).items():
             p.set_function(k, v)
-        r = p.parse(formula)
+        r = guarded_parse(p, formula)
         cases += 1
         if callable(want):
             ok = bool(want(r))
